@@ -9,6 +9,9 @@ spec/agg/WorkerAbs.tla     property layer of the worker sink (sends, merges, flu
 spec/agg/Worker.tla        channel + worker loop + handles; TLC: refines WorkerAbs for every interleaving,
                            terminates under fairness (BreakOnDisconnect = FALSE is the loop of defect D5)
 spec/agg/WorkerTrace.tla   trace validation of recorded multi-producer executions against WorkerAbs
+spec/agg/MutexAbs.tla      property layer of the mutex-shared sink (merges racing closes of the parent entry)
+spec/agg/MutexSinkRace.tla lock-level model of MutexSink merge / close; TLC: refines MutexAbs for every interleaving
+spec/agg/MutexTrace.tla    trace validation of recorded merge-vs-close races against MutexAbs
 harness/src/bin/agg.rs     driver (replay into 6 sink arrangements, record)
 """
 import json, os, random
@@ -169,6 +172,56 @@ def run_T(chk, prop, scen, tag="rec"):
 
 
 # --------------------------------------------------------------------------------------------
+# T, mutex-shared sink: merges racing closes of the parent entry
+# --------------------------------------------------------------------------------------------
+def gen_mx(rng, n):
+    out = []
+    for i in range(n):
+        nm = rng.randint(1, 3)
+        per = [rng.randint(6, 60 // nm if nm > 2 else 20) for _ in range(nm)]
+        slow_ns = rng.choice([5_000, 20_000, 50_000, 150_000])
+        pace = rng.choice([0, 0, 5, 30])
+        span_us = max(per) * (slow_ns // 1000 + pace + 2)
+        k = rng.randint(2, 5)
+        out.append({"id": i + 1, "mergers": per, "slow_ns": slow_ns, "pace_us": pace,
+                    "closes_us": [max(1, int(span_us * rng.uniform(0.05, 0.9) / k)) for _ in range(k)],
+                    "seed": rng.randrange(1 << 30)})
+    return out
+
+
+def run_T_mutex(chk, prop, scen, tag="mx"):
+    sp = os.path.join(chk.dir, f"{tag}-scen.ndjson")
+    tp = os.path.join(chk.dir, f"{tag}-trace.ndjson")
+    mp = os.path.join(chk.dir, f"{tag}-meta.ndjson")
+    vlib.write_ndjson(sp, scen)
+    vlib.run_bin("agg", ["mutexrace", "--scenarios", sp, "--out", tp, "--meta", mp], timeout=3600)
+
+    def on_reject(meta, v, lines):
+        ev = v.event if isinstance(v.event, dict) else {}
+        what = (f"recorded mutex-sink execution {meta['id']} ({len(meta['scenario']['mergers'])} merger threads racing closes of the "
+                f"parent entry) is not a behaviour of MutexAbs: "
+                + (f"invariant {v.invariant} violated" if v.invariant else
+                   f"event {json.dumps(v.event)} (line {v.rel_line} of the scenario trace) cannot happen")
+                + f"; abstract state <<merges pending, in effect, held by the aggregate, closes, taken>> = {v.state}")
+        chk.violation(what, {"kind": "mutexrace", "scenario": meta["scenario"], "rejected_line": v.rel_line, "event": v.event,
+                             "trace": [json.loads(l) for l in lines]}, key=f"{prop}:mutexrace:{ev.get('ev')}")
+
+    acc = vlib.validate_scenarios(SPECD, "MutexTrace", "MutexTrace.cfg", tp, mp, on_reject, chunk=10, jobs=6, stats=chk.extra)
+    chk.traces += acc
+    st = chk.extra.setdefault("mutex_races", {"scenarios": 0, "events": 0, "closes": 0, "closes_overlapping_a_merge": 0,
+                                              "nonempty_closes_before_the_last": 0})
+    for m in vlib.read_ndjson(mp):
+        st["scenarios"] += 1
+        st["events"] += m["events"]
+        st["closes"] += m["closes"]
+        st["closes_overlapping_a_merge"] += m["closes_overlapping_a_merge"]
+        st["nonempty_closes_before_the_last"] += m["nonempty_mid_closes"]
+        chk.evaluations += 1
+        s = m["scenario"]
+        chk.nontrivial.add("mx:" + json.dumps([s["mergers"], s["slow_ns"], m["closes"], m["closes_overlapping_a_merge"], m["nonempty_mid_closes"]]))
+
+
+# --------------------------------------------------------------------------------------------
 def run(prop, tier):
     chk = vlib.Check(prop, tier)
     chk.rule = ("evaluations = TLC-generated histories (merge / flush / guard create, mutate, drop; every history up to the "
@@ -190,9 +243,12 @@ def run(prop, tier):
         chk.add_model("Worker", r)
         r = vlib.model_check(SPECD, "Worker", "MC_worker_live.cfg", timeout=3600)
         chk.add_model("Worker/live", r)
+        r = vlib.model_check(SPECD, "MutexSinkRace", "MC_mutex_quick.cfg" if tier == "quick" else "MC_mutex.cfg", timeout=3600)
+        chk.add_model("MutexSinkRace", r)
     run_R(chk, prop, tier)
     rng = random.Random(chk.seed * 7919 + 10)
     run_T(chk, prop, gen_scen(rng, 30 if tier == "quick" else 600))
+    run_T_mutex(chk, prop, gen_mx(rng, 40 if tier == "quick" else 800))
     return chk.finish()
 
 
@@ -211,6 +267,13 @@ def replay(prop, path):
         return 1 if bad else 0
     tp = os.path.join(chk.dir, "trace.ndjson")
     vlib.write_ndjson(tp, rp["trace"])
+    if rp.get("kind") == "mutexrace":
+        r = vlib.validate_trace(SPECD, "MutexTrace", "MutexTrace.cfg", tp)
+        log("stored trace:", "ACCEPTED" if r.accepted else f"REJECTED at line {r.line}: {r.event}")
+        scen = [dict(rp["scenario"], id=i + 1, seed=rp["scenario"].get("seed", 0) + i) for i in range(20)]
+        run_T_mutex(chk, prop, scen, tag="replay")
+        log("re-run of the scenario on the current tree (20 seeds):", "REPRODUCED" if chk.violations else "passes")
+        return 1 if chk.violations else 0
     r = vlib.validate_trace(SPECD, "WorkerTrace", "WorkerTrace.cfg", tp)
     log("stored trace:", "ACCEPTED" if r.accepted else f"REJECTED at line {r.line}: {r.event}")
     scen = [dict(rp["scenario"], id=i + 1, seed=rp["scenario"].get("seed", 0) + i) for i in range(10)]
